@@ -50,7 +50,9 @@ MNotExist == /\ E.ev = "M.route.notexist"
 CmdWritten == /\ E.ev = "cmd_written"
               /\ bad' = Flag(Get(routed, E.k, -1) = E.c, "CommandToWrongConnection") /\ Same
 CmdRet == /\ E.ev = "cmd_ret"
-          /\ bad' = Flag((E.kind = "notexist") = (Get(routed, E.k, -1) = 0), "NotExistResult") /\ Same
+          /\ bad' = Flag(/\ (E.kind = "notexist") = (Get(routed, E.k, -1) = 0)
+                          /\ (E.kind = "notexist" => E.ms < 400),              \* "at once": whatever other keys are doing
+                          IF E.kind = "notexist" /\ E.ms >= 400 THEN "NotExistNotAtOnce" ELSE "NotExistResult") /\ Same
 Other == /\ E.ev \notin {"M.join.ok", "M.join.refused", "S.begin", "M.leave", "join", "leave", "M.route.before", "M.route.notexist", "cmd_written", "cmd_ret"}
          /\ bad' = bad /\ Same
 Next == l <= Len(Trace) /\ l' = l + 1
